@@ -388,6 +388,9 @@ func runC17(args []string) {
 	emit(5, &c17Case{d: 2, p: 1, stripe: 1024, content: c5000, faults: []c17Fault{{k: 2, kind: "missing"}}, tx: true})
 	emit(6, &c17Case{d: 2, p: 1, stripe: 1024, content: c5000, faults: []c17Fault{{k: 1, kind: "append", data: bytes.Repeat([]byte{0xab}, 48)}}})
 	emit(7, &c17Case{d: 2, p: 1, stripe: 1024, content: c5000, faults: []c17Fault{{k: 0, kind: "missing"}, {k: 1, kind: "missing"}}})
+	// 8, 9: a lying shard next to a missing one (2+2, two faults ≤ p): the healed shard is built from the lie
+	emit(8, &c17Case{d: 2, p: 2, stripe: 1024, content: c5000, faults: []c17Fault{{k: 0, kind: "missing"}, {k: 1, kind: "set", a: l.frameOff[0] + 8, data: be(100)}}})
+	emit(9, &c17Case{d: 2, p: 2, stripe: 1024, content: c5000, faults: []c17Fault{{k: 0, kind: "missing"}, {k: 1, kind: "foreign"}}})
 	cfgs := [][2]int{{1, 1}, {2, 1}, {2, 2}, {3, 2}}
 	// every single fault of the catalogue on one shard, for every configuration (quick: two sizes)
 	for _, dp := range cfgs {
